@@ -41,10 +41,28 @@ func c16Package(r *RNG) []c16Decl {
 		}
 		return fmt.Sprintf("K%d", r.Intn(nC))
 	}
+	// types with 1..7 methods and 2..6 fields: their names get global-table indices in compile order, so which
+	// names collide in a type's method / field table depends on the permutation and the partition
+	nMeth := make([]int, nT)
+	nFld := make([]int, nT)
 	for i := 0; i < nT; i++ {
-		ds = append(ds, c16Decl{fmt.Sprintf("type T%d struct {\n\tA int\n\tB int\n}", i), true})
-		for m := 0; m < 1+r.Intn(2); m++ {
-			ds = append(ds, c16Decl{fmt.Sprintf("func (t *T%d) M%d(x int) int {\n\treturn t.A*%d + x + helper%d(x)\n}", i, m, 2+m, r.Intn(nF)), true})
+		nMeth[i], nFld[i] = 1+r.Intn(7), 2+r.Intn(5)
+		var fl []string
+		for f := 0; f < nFld[i]; f++ {
+			fl = append(fl, fmt.Sprintf("\t%c%d int\n", 'A'+f, i*0))
+		}
+		decl := fmt.Sprintf("type T%d struct {\n\tA int\n\tB int\n", i)
+		for f := 2; f < nFld[i]; f++ {
+			decl += fmt.Sprintf("\tF%d_%d int\n", i, f)
+		}
+		ds = append(ds, c16Decl{decl + "}", true})
+		_ = fl
+		for m := 0; m < nMeth[i]; m++ {
+			extra := ""
+			if nFld[i] > 2 {
+				extra = fmt.Sprintf(" + t.F%d_%d", i, 2+r.Intn(nFld[i]-2))
+			}
+			ds = append(ds, c16Decl{fmt.Sprintf("func (t *T%d) M%d(x int) int {\n\tmark(\"T%d.M%d\", x)\n\treturn t.A*%d + x + helper%d(x)%s\n}", i, m, i, m, 2+m, r.Intn(nF), extra), true})
 		}
 	}
 	for i := 0; i < nF; i++ {
@@ -71,7 +89,13 @@ func c16Package(r *RNG) []c16Decl {
 	}
 	main := "func Main() {\n"
 	for i := 0; i < nT; i++ {
-		main += fmt.Sprintf("\tt%d := &T%d{A: %d}\n\tprintln(\"m\", t%d.M0(%d))\n", i, i, 1+r.Intn(5), i, r.Intn(5))
+		main += fmt.Sprintf("\tt%d := &T%d{A: %d}\n", i, i, 1+r.Intn(5))
+		for f := 2; f < nFld[i]; f++ {
+			main += fmt.Sprintf("\tt%d.F%d_%d = %d\n", i, i, f, 10*f+i)
+		}
+		for m := 0; m < nMeth[i]; m++ {
+			main += fmt.Sprintf("\tprintln(\"m\", t%d.M%d(%d))\n", i, m, r.Intn(5))
+		}
 	}
 	main += fmt.Sprintf("\tprintln(\"h\", helper0(3), g%d)\n}", nV-1)
 	ds = append(ds, c16Decl{main, true})
